@@ -165,6 +165,14 @@ def check_producers(repo, model: FsmModel, pm: ProviderModel, rep):
                     ok = any(_is_timer_expired(c_) for c_ in conds) or all(expiry_facts(conds, 'self.timer'))
                     if not ok:
                         d['problems'].add('EVT_18 appended without a positive expiry test of the ARTIM timer')
+                elif n == 9:
+                    # P-DATA request as a constant: only for a primitive taken from the DIMSE message generator on this path
+                    # (what it yields are P-DATA-TF PDUs: C06.S5)
+                    prim = [e for e in trail_before if e.kind == 'store' and e.callee == 'self.primitive']
+                    pterm = prim[-1].args[0] if prim else ''
+                    if not (pterm.replace(' ', '').startswith('next(self.dimse_gen')):
+                        d['problems'].add('EVT_9 appended as a constant for a primitive that is not taken from the DIMSE message generator (%s)'
+                                          % (pterm or 'none stored on this path'))
                 elif n == 19:
                     ok = any(c_.startswith('exc:') for c_ in conds) or any('PDU_TYPES' in c_ and ' in ' in c_ for c_ in conds)
                     if not ok:
@@ -486,6 +494,8 @@ def check_wire_order(pm: ProviderModel, rep):
 
 
 def run(repo, rep):
+    from ..pitfalls import memo_rule as _memo_rule
+    _memo_rule(repo, rep, 'C05', 'C05.Z1')
     model = FsmModel(repo)
     pm = ProviderModel(repo, model)
     rep.trust('PS3.8 Table 9-10 event rows and state definitions as transcribed in pnd_static/oracles/ps3_8.py')
